@@ -235,6 +235,9 @@ class Interp:
         if isinstance(f, External):
             return self._call_external(f.name, args, kwargs, node)
         if isinstance(f, type) or callable(f):
+            if isinstance(getattr(f, "__self__", None), STensor):
+                # members of an IntEnum are ints to tensor methods (narrow, select, ...)
+                args = [a.value if isinstance(a, EnumVal) and isinstance(a.value, int) and self._is_int_enum(a.cls) else a for a in args]
             try:
                 return f(*args, **kwargs)
             except (Unsupported, InterpError):
